@@ -34,6 +34,10 @@ func (a *application) start(mode gen.ApplicationMode, options gen.ApplicationOpt
 
 	// a new life: the reason of the previous stop must not leak into this one
 	a.reason = nil
+	// the mode and the stop signal must be in place before the first member is spawned:
+	// a member may terminate (and run a.terminate) while the others are still being started
+	a.mode = mode
+	a.stopped = make(chan struct{})
 
 	// build app env
 	appEnv := make(map[gen.Env]any)
@@ -77,9 +81,7 @@ func (a *application) start(mode gen.ApplicationMode, options gen.ApplicationOpt
 		a.group.Store(pid, true)
 	}
 
-	a.stopped = make(chan struct{})
 	a.node.log.Info("application %s (%s) started", a.spec.Name, a.mode)
-	a.mode = mode
 	a.parent = options.CorePID.Node
 
 	a.started = time.Now().Unix()
